@@ -38,6 +38,9 @@ func zzPromptSet(n int) (*featureSet[*serverPrompt], []string) {
 	var keys []string
 	for i := 0; i < n; i++ {
 		k := zzKey("key")
+		if i == 0 && vBool("emptyID") {
+			k = "" // the set is generic over ids: the empty string is an id like any other (and sorts first)
+		}
 		for _, o := range keys {
 			vAssume(o != k)
 		}
@@ -209,6 +212,9 @@ func zzC17PageStep() {
 	}
 	vAssert(err == nil, "C17.page.err")
 	total := zzCountAbove(keys, u)
+	if kind == 0 {
+		total = len(keys) // no cursor: everything, an item whose id is the empty string included
+	}
 	want := total
 	if want > s.opts.PageSize {
 		want = s.opts.PageSize
@@ -216,14 +222,14 @@ func zzC17PageStep() {
 	vAssert(res.Prompts != nil, "C17.page.non-nil-list")
 	vAssert(len(res.Prompts) == want, "C17.page.size")
 	for i, p := range res.Prompts {
-		vAssert(p.Name > u, "C17.page.above-cursor")
+		vAssert(kind == 0 || p.Name > u, "C17.page.above-cursor")
 		if i > 0 {
 			vAssert(res.Prompts[i-1].Name < p.Name, "C17.page.ascending")
 		}
 		// no key between the cursor and this item was skipped: exactly i keys lie in (u, p.Name)
 		between := 0
 		for _, k := range keys {
-			if k > u && k < p.Name {
+			if (kind == 0 || k > u) && k < p.Name {
 				between++
 			}
 		}
